@@ -908,8 +908,11 @@ func (e *SpecEnv) evalCall(x *SCall) Val {
 			return c.pureApp(fn, []Val{recv, arg}, fn.Signature.Results().At(0).Type(), e.st)
 		case "returned": // returned(NAME): what the latest call of NAME in this function's body returned
 			id, ok := x.Args[0].(*SIdent)
-			if !ok || len(x.Args) != 1 {
-				e.fail("returned() takes a function or method name")
+			if !ok || (len(x.Args) != 1 && len(x.Args) != 2) {
+				e.fail("returned() takes a function or method name and optionally the ordinal of a call site")
+			}
+			if len(x.Args) == 2 {
+				id = &SIdent{Name: id.Name + "#" + x.Args[1].String()}
 			}
 			v, found := c.lastCall[id.Name]
 			if !found {
